@@ -78,12 +78,39 @@ def run_case(case, tmp):
         from mpilot.libraries.eems.csv.io import EEMSRead, EEMSWrite
 
         path = os.path.join(tmp, "data.csv")
+        if kind == "csv_reread":
+            with open(path, "w", newline="") as f:
+                f.write(case["text"])
+
+            def rd(params):
+                kw = {"InFileName": path, "InFieldName": case["field"]}
+                for k, v in params.items():
+                    kw[k] = types[v] if k == "DataType" else v
+                return EEMSRead("r", [], lineno=3).execute(**kw)
+
+            first = rd(case["first"])
+            out = {"first": dump_array(first), "after": []}
+            for params in case["then"]:
+                o = outcome(lambda: dump_array(rd(params)))
+                out["after"].append({"params": params, "outcome": o["outcome"], "first_now": dump_array(first)})
+            return out
         if kind == "csv_read":
             with open(path, "w", newline="") as f:
                 f.write(case["text"])
             kw = {"InFileName": path, "InFieldName": case["field"]}
             for k, v in case.get("params", {}).items():
                 kw[k] = types[v] if k == "DataType" else v
+            if case.get("via_program"):
+                from mpilot.program import Program, EEMS_CSV_LIBRARIES
+
+                src = 'R = EEMSRead(InFileName = "%s", InFieldName = "%s")\n' % (path, case["field"])
+
+                def go():
+                    prog = Program.from_source(src, libraries=EEMS_CSV_LIBRARIES, working_dir=tmp)
+                    prog.run()
+                    return dump_array(prog.commands["R"].result)
+
+                return outcome(go)
             r = outcome(lambda: dump_array(EEMSRead("r", [], lineno=3).execute(**kw)))
             return r
         cols = [Stub(c["name"], mk(c)) for c in case["columns"]]
@@ -147,6 +174,32 @@ def run_case(case, tmp):
                         from mpilot.arguments import Argument
                         args.append(Argument("DataType", v, 1))
                 out["reads"].append(outcome(lambda kw=kw, args=args: dump_array(EEMSRead("r", args, lineno=3).execute(**kw))))
+        return out
+    if kind == "nc_reread":
+        path = os.path.join(tmp, "in.nc")
+        with Dataset(path, "w") as ds:
+            for d, n in zip(dims, shape):
+                ds.createDimension(d, n)
+            a = mk(case, shape)
+            v = ds.createVariable("V", a.dtype.char, tuple(dims))
+            v[:] = a
+
+        def rd(params):
+            from mpilot.arguments import Argument
+
+            kw = {"InFileName": path, "InFieldName": "V"}
+            args = []
+            for k, v in params.items():
+                kw[k] = nvalid[v] if k == "DataType" else v
+                if k == "DataType":
+                    args.append(Argument("DataType", v, 1))
+            return EEMSRead("r", args, lineno=3).execute(**kw)
+
+        first = rd(case["first"])
+        out = {"first": dump_array(first), "after": []}
+        for params in case["then"]:
+            o = outcome(lambda: dump_array(rd(params)))
+            out["after"].append({"params": params, "outcome": o["outcome"], "first_now": dump_array(first)})
         return out
     if kind == "nc_read":
         path = os.path.join(tmp, "in.nc")
